@@ -45,7 +45,7 @@ LEAN_MODULES = {
     "C16": ["TFV.Properties.Split", "TFV.Properties.Src.GetNJobs"],
     "C17": ["TFV.Properties.EA", "TFV.Properties.Heap"],
     "C18": ["TFV.Properties.Estim"],
-    "C19": ["TFV.Properties.Metrics"],
+    "C19": ["TFV.Properties.Metrics", "TFV.Properties.Src.MetricCounts"],
     "C20": ["TFV.Properties.Bench"],
 }
 
@@ -63,6 +63,7 @@ SRC_KERNELS = {
             "Tree_subtree_id", "Tree_subtree", "Tree_concat"],
     "C11": ["binary_search_interval", "check_for_value", "argsort_k", "tournament_selection", "sattolo_shuffle", "random_sample", "random_weighted_sample"],
     "C16": ["get_n_jobs"],
+    "C19": ["recall_counts", "precision_counts", "f1_counts"],
 }
 
 
